@@ -376,7 +376,8 @@ class Service:
         if ClientServiceState.is_config_created(self.get_current_service_state()):
             raise ValueError(f"The config of service {self.short_sid} has been already created.")
 
-        _check_config_valid(config)
+        if not _check_config_valid(config):
+            raise ValueError("The configuration cannot be used to instantiate the chosen SSE scheme.")
         _add_salt_to_config(config)  # add salt
 
         # INIT SERVICE
